@@ -6,7 +6,7 @@ ID = "C01"
 HARNESS = "c01_harness"
 COQ_TARGETS = engcommon.COQ_BASE + ["Props/C01.vo"]
 
-MANIFEST = {'technique': "Rocq proofs of soundness (all combinators) and of completeness under left recursion (curtailment invariant + pumping lemma) about an executable engine model; model run inside Coq against the Go engine; executable derivation checker and least-fixpoint end sets as oracle on the implementation's trees", 'text': "Props/C01.v: C01_sound (every returned tree is the yield of a valid derivation, contiguous spans, leaves spell the input; all operators of the fragment incl. Choice/Many/SepBy/SeqTry/SeqFirstOrAll), C01_sound_all (all combinators), and for the monotone fragment C01_complete_invariant/ends/trees (_partial: every reachable end always, every tree without a unit cycle) under direct, indirect and hidden left recursion, for all grammars, inputs, offsets and fuel. The stratified operators' first-match/longest-path completeness is covered by the correspondence only. Every run compares the model (vm_compute) with the real engine on enumerated and random grammars and evaluates the specification (derivation validity, least-fixpoint end set) on the implementation's trees.", 'note': "Trusted: Coq kernel, vm_compute; the hand-written engine model (validated by whole-observation differential runs: results, errors, call counts, activation and failure logs); Go driver with probes; ASCII rune terminals; Memoize indexes unique (Go's atomic counter).", 'ref': 'DESIGN.md section 6, C01'}
+MANIFEST = {'technique': "Rocq proofs of soundness (all combinators) and of completeness under left recursion (curtailment invariant + pumping lemma) about an executable engine model; model run inside Coq against the Go engine; executable derivation checker and least-fixpoint end sets as oracle on the implementation's trees", 'text': "Props/C01.v: C01_sound (every returned tree is the yield of a valid derivation, contiguous spans, leaves spell the input; all operators of the fragment incl. Choice/Many/SepBy/SeqTry/SeqFirstOrAll), C01_sound_all (all combinators), C01_complete_invariant/ends/trees for the monotone fragment (every reachable end always, every tree without a unit cycle) under direct, indirect and hidden left recursion, and C01_exact_sound/_complete_ends/_complete_trees/_empty for every STRATIFIED grammar with Choice, Many, SepBy, SeqTry, SeqFirstOrAll (exact derivations = valid + first-match + longest-path premises, by recursion on the stratum; decidable stratification check), for all inputs, offsets and fuel. Outside: positional-only stratification (an observer whose operand re-enters its own rule after consuming input), End inside rules, Name/trim/Suppress/Single for completeness (soundness covers them). Every run compares the model (vm_compute) with the real engine on enumerated and random grammars and evaluates the specification (derivation validity, least-fixpoint end set) on the implementation's trees.", 'note': "Trusted: Coq kernel, vm_compute; the hand-written engine model (validated by whole-observation differential runs: results, errors, call counts, activation and failure logs); Go driver with probes; ASCII rune terminals; Memoize indexes unique (Go's atomic counter).", 'ref': 'DESIGN.md section 6, C01'}
 RULE = ("all one-rule monotone grammars up to a node bound x all inputs over {a,b} up to a length bound (enumerated), plus random "
         "grammars over all combinators, named and unnamed; non-trivial = non-empty root result or failing Sentence parse; "
         "distinct = distinct case text")
